@@ -21,7 +21,8 @@ RULE = ("Three generated families judged by this property's own oracle. (a) ever
         "on the SAME store instance complete without blocking and a follow-up store_object is not rejected as "
         "'already in progress'. evaluations = controlled / faulted executions. Non-trivial = some thread actually "
         "waited on a condition or lock, or a fault was injected while an identifier was locked; distinct key = "
-        "(family, program, schedule or fault site).")
+        "(family, program, schedule or fault site)."
+        ' Further families: wake chain (a call that waits for one identifier while holding another, a second waiter, an unrelated release) for the document, pid and cid locks; fault mode "late" (the k-th rename / replace takes effect and then reports EIO).')
 EXHAUSTIVE_NOTE = "families (a) and (c) enumerate completely within each program / scenario; (b) enumerates hold points"
 ASSUMPTIONS = ["'every call returns' is decided as: no explored execution ends with a blocked thread (safety over owned "
                "schedules); starvation under unbounded unfair schedules is out of reach",
